@@ -250,10 +250,14 @@ def execute_plan(ctx, W, S, plan, lines, allow, cfg, ops):
                 S_app = C.force_applicable(cur, W.action(c[0]), c[1], W)
                 try:
                     if interp.applicable(S_app, W.action(c[0]), c[1], W.D, W.objs):
-                        tmp = C.lib_world(ctx, W, S_app, tag=f"-t{i}")[2].copy()
+                        src = C.lib_world(ctx, W, S_app, tag=f"-t{i}")[2]
+                        c2 = st.copy()
+                        preds, fl = c2.state_predicates, c2.state_fluents
+                        del c2
+                        tmp = src.copy()
                         op.is_applicable(tmp)
                         del tmp
-                        st = st.copy()
+                        st = L().State(preds, fl, False)  # the next allocation of that size: re-uses tmp's address
                         ctx.probes["operator_queried_on_released_temporary"] += 1
                 except Exception:
                     pass
